@@ -259,11 +259,26 @@ def ProxyS.finish (p : ProxyS) (m : MuxL) (e : ESock) (shutErr : Bool) : ProxyS 
       ({ p with sw := x.1, mw := r.1, ok := false }, r.2, x.2)
   else (p, m, e)
 
+/-- `if wrap1.shut_write: wrap2.noread(); if wrap2.shut_write: wrap1.noread()` — the state-changing
+part of `Proxy.pre_select` (ssnet.py:301-305), and the same two statements in `Proxy.callback` just
+before the completion test. -/
+def ProxyS.preSelectFlags (p : ProxyS) (m : MuxL) : ProxyS × MuxL :=
+  if p.sockFirst then
+    -- wrap1 = sock, wrap2 = mux
+    let (w, m1) := if p.sw.shutW then p.mw.noread m else (p.mw, m)
+    let s := if w.shutW then p.sw.noread else p.sw
+    ({ p with sw := s, mw := w }, m1)
+  else
+    let s := if p.mw.shutW then p.sw.noread else p.sw
+    let (w, m1) := if s.shutW then p.mw.noread m else (p.mw, m)
+    ({ p with sw := s, mw := w }, m1)
+
 /-- The tail of `Proxy.callback` (ssnet.py:330-340); the order of the two symmetric clean-ups
 follows `wrap1`/`wrap2`. -/
 def ProxyS.cleanup (p : ProxyS) (m : MuxL) (e : ESock) (shutErr : Bool) : ProxyS × MuxL × ESock :=
   let pm := if p.sockFirst then p.dropSock.dropMux m else ((p.dropMux m).1.dropSock, (p.dropMux m).2)
-  pm.1.finish pm.2 e shutErr
+  let pf := pm.1.preSelectFlags pm.2
+  pf.1.finish pf.2 e shutErr
 
 /-- `Proxy.callback` (ssnet.py:323-340). `MuxWrapper.try_connect` and `MuxWrapper.fill` do
 nothing (no `connect_to`; `uread` is `b''` only when `shut_read` is already set). -/
@@ -282,18 +297,6 @@ def ProxyS.callback (p : ProxyS) (m : MuxL) (e : ESock) (io : CbIo) : CbOutcome 
       let (s3, w3, m3) := sockCopyToMux s2 w2 m
       let r := ProxyS.cleanup { p with sw := s3, mw := w3 } m3 e2 io.shutErr
       .ok r.1 r.2.1 r.2.2
-
-/-- The state-changing part of `Proxy.pre_select` (ssnet.py:301-305). -/
-def ProxyS.preSelectFlags (p : ProxyS) (m : MuxL) : ProxyS × MuxL :=
-  if p.sockFirst then
-    -- wrap1 = sock, wrap2 = mux
-    let (w, m1) := if p.sw.shutW then p.mw.noread m else (p.mw, m)
-    let s := if w.shutW then p.sw.noread else p.sw
-    ({ p with sw := s, mw := w }, m1)
-  else
-    let s := if p.mw.shutW then p.sw.noread else p.sw
-    let (w, m1) := if s.shutW then p.mw.noread m else (p.mw, m)
-    ({ p with sw := s, mw := w }, m1)
 
 /-- Which readiness `Proxy.pre_select` asks for (ssnet.py:307-321), after the flag part:
 (sock readable, sock writable, mux-out writable). -/
